@@ -285,9 +285,12 @@ G2, G3, G3D = (2, 1, 2), (3, 1, 2), (2, 1, 1, 2)
 
 def C07(tier, seed):
     if tier == "quick":
-        specs = [("paint", 2, G2, {}), ("paint", 2, G3D, {}), ("UserDeleteNode", 2, G2, {}), ("UserAddNode", 2, G2, {})]
+        # (2,1,3): three cells per frame - a node can consist of two parts that are not adjacent
+        specs = [("paint", 2, G2, {}), ("paint", 2, G3D, {}), ("paint", 1, (2, 1, 3), {}), ("UserDeleteNode", 2, G2, {}),
+                 ("UserAddNode", 2, G2, {})]
     else:
-        specs = [("paint", 3, G2, {}), ("paint", 2, G3, {}), ("paint", 2, G3D, {}), ("UserDeleteNode", 3, G3, {}),
+        specs = [("paint", 3, G2, {}), ("paint", 2, G3, {}), ("paint", 2, G3D, {}), ("paint", 2, (2, 1, 4), {}),
+                 ("paint", 2, (2, 2, 2), {}), ("UserDeleteNode", 3, G3, {}),
                  ("UserAddNode", 3, G2, {}), ("UserAddNode", 2, G3D, {})]
     return _seg("C07", tier, seed, specs)
 
@@ -311,7 +314,8 @@ def C09(tier, seed):
     a = {"iou": True}
     if tier == "quick":
         # three slots on two frames: a repainted node can be a dividing parent (two edges into one frame)
-        specs = [("paint", 3, G2, a), ("UserAddEdge", 3, G3, a), ("UserDeleteNode", 3, G3, a),
+        # paint on three frames: the repainted node can be an endpoint of a frame-skipping edge
+        specs = [("paint", 3, G2, a), ("paint", 2, G3, a), ("UserAddEdge", 3, G3, a), ("UserDeleteNode", 3, G3, a),
                  ("UserSwapPredecessors", 3, G3, a)]
         en = [("iou", 3, G3, {}), ("iou", 3, G3, {"iou": True, "stale_keys": ["iou"]})]
     else:
